@@ -196,14 +196,20 @@ def exhaustive(runner, depth, report):
 
 
 # ---------------------------------------------------------------------- shrinking
+def kind_of(text):
+    """failure class of an oracle message: its words without the concrete ids"""
+    import re
+    return re.sub(r"[^a-zA-Z ]+", "", text)[:48]
+
+
 def shrink(runner, ops, text):
     """delta-debug a failing history: drop operations while the same kind of oracle failure
     remains and the history stays well-formed"""
-    kind = text.split(" ")[0:4]
+    kind = kind_of(text)
 
     def fails(cand):
         _, fl, _, wf = runner.run_history(cand, want_tree=False)
-        return wf and any(b.split(" ")[0:4] == kind for _, b in fl)
+        return wf and any(kind_of(b) == kind for _, b in fl)
 
     ops = list(ops)
     changed = True
@@ -377,7 +383,7 @@ def run(ctx):
     # ---- report (shrunk, one per failure kind)
     seen = set()
     for ops, step, text in violations:
-        kind = " ".join(text.split(" ")[0:4])
+        kind = kind_of(text)
         if kind in seen:
             continue
         seen.add(kind)
